@@ -270,6 +270,18 @@ func (*BaseNode).InsertAfter
      bn(par(insertee)).childCount, bn(par(insertee)).firstChild, bn(par(insertee)).lastChild, bn(prv(insertee)).next, bn(nxt(insertee)).prev,
      bn(nxt(v1)).prev, bn(v1).next, bn(prv(nxt(v1))).next
 
+iface ast.Node.InsertBefore
+  requires WF() && self != nil && recv == self && insertee != nil && insertee != self && (insertee != v1 || par(v1) != self)
+  updates klen(p) = (isChild(v1, self) ? ibLen(p, self, insertee) : apLen(p, self, insertee))
+  updates kid(p, i) = (isChild(v1, self) ? ibKid(p, i, self, v1, insertee) : apKid(p, i, self, insertee))
+  updates kidx(w) = (isChild(v1, self) ? ibIdx(w, self, v1, insertee) : apIdx(w, self, insertee))
+  ensures WF()
+  ensures par(insertee) == self
+  ensures forall w addr {par(w)} :: w != insertee ==> par(w) == old(par(w))
+  modifies bn(self).childCount, bn(self).firstChild, bn(self).lastChild, bn(insertee).parent, bn(insertee).next, bn(insertee).prev, bn(lst(self)).next,
+     bn(par(insertee)).childCount, bn(par(insertee)).firstChild, bn(par(insertee)).lastChild, bn(prv(insertee)).next, bn(nxt(insertee)).prev,
+     bn(v1).prev, bn(prv(v1)).next
+
 iface ast.Node.InsertAfter
   requires WF() && self != nil && recv == self && v1 != nil && insertee != nil && insertee != self && insertee != v1
   updates klen(p) = (iaNoop(self, v1, insertee) ? klen(p) : (isChild(nxt(v1), self) ? ibLen(p, self, insertee) : apLen(p, self, insertee)))
